@@ -149,6 +149,17 @@ def contains(stmts, kinds):
     return any(isinstance(n, kinds) for s in stmts for n in ast.walk(s))
 
 
+def always_returns(stmts):
+    if not stmts:
+        return False
+    last = stmts[-1]
+    if isinstance(last, ast.Return):
+        return True
+    if isinstance(last, ast.If):
+        return always_returns(last.body) and always_returns(last.orelse)
+    return False
+
+
 class Fn:
     """Per-function translation state."""
 
@@ -413,7 +424,10 @@ class Unit:
         if f not in self.funcs:
             raise Reject("call of %s, which is not a module-level function of %s"
                          % (f, self.filename))
-        callee = self.function(f, {}, False)
+        try:
+            callee = self.function(f, {}, False)
+        except Reject as exc:
+            raise Reject("call of %s, which is outside the subset: %s" % (f, exc))
         if len(n.args) != len(callee["slots"]):
             raise Reject("call of %s with %d arguments" % (f, len(n.args)))
         args = []
@@ -540,12 +554,17 @@ class Unit:
         pad = "  " * ind
         c, k = self.test(s.test, env, fx)
         if k is not None:  # decided statically: only that branch exists
-            return self.block((s.body if k else s.orelse) + rest, env, fall, fx, ind, allow_return)
+            br = s.body if k else s.orelse
+            return self.block(br + ([] if always_returns(br) else rest),
+                              env, fall, fx, ind, allow_return)
         if contains([s], ast.Return):
             if not allow_return:
                 raise Reject("return inside a loop body")
-            a = self.block(s.body + rest, env, fall, fx, ind + 1, allow_return)
-            b = self.block(s.orelse + rest, env, fall, fx, ind + 1, allow_return)
+            # the rest of the block continues every branch that can fall through
+            a = self.block(s.body + ([] if always_returns(s.body) else rest),
+                           env, fall, fx, ind + 1, allow_return)
+            b = self.block(s.orelse + ([] if always_returns(s.orelse) else rest),
+                           env, fall, fx, ind + 1, allow_return)
             return "%sif %s then\n%s\n%selse\n%s" % (pad, c, a, pad, b)
         # no return inside: merge the locals the branches assign
         ends = []
@@ -587,11 +606,15 @@ class Unit:
         pad = "  " * ind
         if s.orelse:
             raise Reject("for/else")
-        if contains(s.body, (ast.Return, ast.Break, ast.Continue)):
-            raise Reject("return/break/continue in a for body")
-        lst, tl, _ = self.expr(s.iter, env, fx)
+        try:
+            lst, tl, _ = self.expr(s.iter, env, fx)
+        except Reject as exc:
+            raise Reject("for over `%s`, not a constant table or list local (%s)"
+                         % (ast.unparse(s.iter), exc))
         if tl not in ELEM_TYPES:
             raise Reject("for over %s" % (tl,))
+        if contains(s.body, (ast.Return, ast.Break, ast.Continue)):
+            raise Reject("return/break/continue in a for body")
         if isinstance(s.target, ast.Name):
             tg = [s.target.id]
         elif isinstance(s.target, ast.Tuple) and all(isinstance(e, ast.Name) for e in s.target.elts):
